@@ -8,7 +8,9 @@ loop under runtime wrappers (no source hooks) and prints one JSON record per lin
   {"k": "leaf", ...}                       Galerkin orthogonality of the residual on every leaf, every iteration
   {"k": "run", ...}                        end of run (exception text if the driver failed)
 
-usage: loop_worker.py problem domain exact refinement estimator grading iters hh2 hier [theta] [sigma]
+usage: loop_worker.py problem domain exact refinement estimator grading iters hh2 hier [theta] [sigma] [quadrature] [workdir]
+(with a workdir the run happens there and the directory is kept: several runs from one working directory, Sessions.tla;
+ the run then also reports which estimator arrays the driver loaded from files)
 """
 import contextlib
 import io
@@ -61,6 +63,8 @@ def main():
     exact, grading, hh2, hier, iters = exact == "1", grading == "1", hh2 == "1", hier == "1", int(iters)
     theta = float(sys.argv[10]) if len(sys.argv) > 10 else 0.9
     sigma = float(sys.argv[11]) if len(sys.argv) > 11 else 2.0
+    quadrature = sys.argv[12] if len(sys.argv) > 12 else "5355"
+    workdir = sys.argv[13] if len(sys.argv) > 13 else None
     from src import error_estimator as ee
     from src import h_h2_error_estimator as hh
     from src import hierarchical_error_estimator as hi
@@ -125,6 +129,14 @@ def main():
     wrap(hi.HierarchicalErrorEstimator, "estimate", first("hier"))
     wrap(ee.ErrorEstimator, "estimate_weighted_l2", first("l2"))
     wrap(ee.ErrorEstimator, "estimate_sobolev", first("sobolev"))
+    orig_isfile = os.path.isfile
+
+    def isfile(path):
+        r = orig_isfile(path)
+        if r and "hierarch_" in str(path) and not st["in_event"]:
+            once("hier-loaded")
+        return r
+    os.path.isfile = isfile
     orig_solve = np.linalg.solve
 
     def solve(a, b):
@@ -223,20 +235,21 @@ def main():
     wrap(mm.Mesh, "refine_grading", w_grade)
 
     argv = ["example.py", "--problem", problem, "--domain", domain, "--refinement", refinement, "--estimator", estimator,
-            "--theta", repr(theta), "--grading-sigma", repr(sigma)]
+            "--theta", repr(theta), "--grading-sigma", repr(sigma), "--estimator-quadrature", quadrature]
     argv += ["--single-layer-exact"] if exact else []
     argv += ["--grading"] if grading else []
     argv += ["--h-h2"] if hh2 else ["--no-h-h2"]
     argv += ["--hierarchical"] if hier else ["--no-hierarchical"]
     emit({"k": "cfg", "problem": problem, "domain": domain, "exact": exact, "hh2": hh2, "hier": hier, "l2": True, "sobolev": True,
-          "refinement": refinement, "estimator": estimator, "grading": grading, "iters": iters})
+          "refinement": refinement, "estimator": estimator, "grading": grading, "iters": iters, "quadrature": quadrature})
     old, cwd = sys.argv, os.getcwd()
-    work = tempfile.mkdtemp(prefix="loop.", dir=os.environ.get("VERIF_SCRATCH_DIR", "/verif/.scratch"))
+    work = workdir or tempfile.mkdtemp(prefix="loop.", dir=os.environ.get("VERIF_SCRATCH_DIR", "/verif/.scratch"))
     os.chdir(work)
     sys.argv = argv
     exc = ""
+    buf = io.StringIO()
     try:
-        with contextlib.redirect_stdout(io.StringIO()):
+        with contextlib.redirect_stdout(buf):
             runpy.run_path(os.path.join(REPO, "example.py"), run_name="__main__")
     except Stop:
         pass
@@ -245,8 +258,15 @@ def main():
     finally:
         sys.argv = old
         os.chdir(cwd)
-        shutil.rmtree(work, ignore_errors=True)
+        if workdir is None:
+            shutil.rmtree(work, ignore_errors=True)
         np.linalg.solve = orig_solve
+        os.path.isfile = orig_isfile
+    if workdir is not None:
+        out = buf.getvalue()
+        emit({"k": "estload", "problem": problem, "domain": domain, "exact": exact, "q0": quadrature[0], "q1": "_".join(quadrature[1:]),
+              "hier": "Hierarchical error estimator loaded from" in out, "wl2": "Loaded weighted L2 from" in out, "sob": "Loaded Sobolev from" in out,
+              "m0": "Loaded Initial Operator from file" in out})
     emit({"k": "run", "mode": "loop", "problem": problem, "domain": domain, "exact": exact, "exc": exc, "iterations": st["iter"]})
 
 
